@@ -27,6 +27,10 @@ CHECKS = {
          "All scripts of <= 3 (thorough 4) operations over {write 1/2/3 half-pipe units to stdout/stderr, close stdout, close stderr} x exit 0/3/255, plus signals, pauses, working directories, volume up to 4 MiB and unstartable / empty commands, run as real children; every write uses its own fill byte, so stdout, stderr and the exit status are compared exactly; a hang is established structurally (child in write(2) on a pipe whose fill level, read on the parent's end, equals its capacity and does not move while RunCommand has not returned). Schedules between parent and child are the kernel's: the interleaving the property quantifies over is the child's write order, which is enumerated.",
          "Trusted: linux /proc, FIONREAD, F_GETPIPE_SZ. Not done in this check: the all-schedules exploration over a simulated process (DESIGN.md C14 exploration 1).",
          "DESIGN.md §3 C14"),
+ "C15": ("bounded-exhaustive enumeration of the edit-distance-1 neighbourhood of valid seed files (all truncations, byte substitutions at every offset, all structural corruptions re-signed and verified) and of catalogues of degenerate layouts, keys, signatures and link directories; oracle: every call returns",
+         "Four seed files (legacy/DSSE x full link/layout): every prefix and 12 substitute bytes at every third (thorough: every) offset through both loaders and, when loadable, validator, VerifySignature, Sign and InTotoVerify; every structural corruption of the C12 walk re-signed by the legitimate key and pushed through verification; 10 odd rules in all four rule positions, thresholds -1/0/2/2^31, odd names, zero steps, empty commands, garbage CAs, 55 key-type x material combinations as functionary key, 330 as verify/sign/layout key, hostile signature entries and link directories (symlink loops, self-delegating sublayouts, 200 garbage links). Panics are recovered and attributed; a dying or hanging worker is attributed to the case it announced.",
+         "Outside (said plainly): inputs at edit distance > 1 from the seeds and outside the catalogues; coverage-guided fuzzing is a different family and is not done.",
+         "DESIGN.md §3 C15"),
  "C16": ("stateless exploration of thread schedules of the real code under a cooperative scheduler (preemption-bounded DFS over points at every access to discovered package-level state and every shimmed sync operation), vector-clock race check and differential oracle against the same call made alone",
          "Every unordered pair of 12 library operations on private data as 2 threads x 1 operation, 2 threads x 2 operations over a sub-menu (thorough: larger menu, 3 threads): all schedules with <= 2 (thorough 3) preemptions; scheduling points are inserted mechanically by the overlay rewriter at every use of every package-level variable of package in_toto and at sync.Mutex/RWMutex/Once/Map operations, so newly introduced shared state is explored without touching the harness. Per schedule: no conflicting accesses unordered by happens-before, no deadlock/panic, each result equal to the solo result. Auxiliary (not deciding): the same bodies free-running under the race detector with 16-64 goroutines and GOMAXPROCS 2/16.",
          "Trusted: overlay rewriter (globals discovered through type information), sched. Outside: races inside dependencies (auxiliary pass only), memory-model effects below variable granularity, > 3 threads. Goroutines/channels inside the library are not scheduling points (reported by the rewriter: 1 go statement, 2 channel operations in RunCommand, none touching package state).",
